@@ -39,6 +39,17 @@ def run(ctx):
              "Shapiro v. Thompson, 394 U. S. 618", "1 A. 2d 3; 1 A.2d 3", "1 Mass. App. Ct. 1; 1 Mass. 1"]
     for _ in range(120 if th else 30):
         texts.append(textgen.document(rng, hostile=rng.random() < 0.2))
+    # court parentheticals: a full court string followed (in a later text) by a proper prefix of it, so that any
+    # state kept between calls by the court lookup would show
+    try:
+        from courts_db import courts
+        cs_ = [c["citation_string"] for c in courts if c.get("citation_string") and " " in c["citation_string"]]
+        for full in (rng.sample(cs_, 40 if th else 10) + ["N.J. Super. App. Div.", "Bankr. S.D."]):
+            words = full.split(" ")
+            texts.append(f"Foo v. Bar, 1 U.S. 1 ({full} 1953).")
+            texts.append(f"Baz v. Qux, 2 U.S. 2 ({' '.join(words[:rng.randrange(1, len(words))])} 1946).")
+    except Exception:  # noqa
+        pass
     jobs = [dict(text=t, ra=False) for t in texts] + [dict(text=t, ra=True) for t in texts[:10]]
     os.makedirs(os.path.join(core.WORK, "c15"), exist_ok=True)
     jf = os.path.join(core.WORK, "c15", f"jobs_{os.getpid()}.json")
@@ -91,6 +102,27 @@ def run(ctx):
             ctx.count("threaded call")
             if a != b:
                 diff(f"in thread {k} of 8 sharing the default tokenizer", j, a, b)
+    # every text alone in its own fresh process (no history at all) vs the in-process result with history
+    iso = list(range(len(texts)))[- (90 if th else 26):] + list(range(0, min(len(texts), 8)))
+    iso_procs = []
+    for k in iso:
+        f1 = os.path.join(core.WORK, "c15", f"iso_{os.getpid()}_{k}.json")
+        json.dump([jobs[k]], open(f1, "w"))
+        iso_procs.append((k, f1, subprocess.Popen([core.PY, "-m", "harness.c15_worker", f1], cwd=core.VERIF, env=core.env_for_python(),
+                                                   stdout=subprocess.PIPE, stderr=subprocess.DEVNULL, text=True)))
+        if len(iso_procs) % 16 == 0:
+            for _, _, p_ in iso_procs[-16:]:
+                p_.wait()
+    for k, f1, p_ in iso_procs:
+        out, _ = p_.communicate(timeout=600)
+        ctx.count("isolated fresh-process call")
+        line = out.strip().split("\n")[-1] if out.strip() else ""
+        if line != base[k]:
+            diff("between a fresh process that saw only this text and a process that processed other texts before", jobs[k], line, base[k])
+        try:
+            os.remove(f1)
+        except OSError:
+            pass
     # fresh processes under different hash seeds
     seeds = list(range(1, 33 if th else 9))
     procs = []
